@@ -749,3 +749,54 @@ def shrink_neighbours(desc):
             d[side].pop("pdoc")
             out.append(d)
     return out[:12]
+
+
+# ------------------------------------------------------------------------------------------ bounded-exhaustive cores
+def core_file_cases(deeps=(False,), dries=(False,)):
+    """One file present on both sides: content relation x mtime relation x strategy x depth x recursive x entry."""
+    out = []
+    for (cs, cd) in (("A", "B"), ("A", "BB"), ("A", "A")):
+        for ms in (1000, 2000):
+            for md in (1000, 2000):
+                for strat in (None, "always", "never", "update", ["custom", ["x", "sub/x"]], ["custom", []]):
+                    for rel in ("x", "sub/x"):
+                        for recursive in (False, True):
+                            for deep in deeps:
+                                for dry in dries:
+                                    for entry in ("Project.sync", ["Job.sync", {"a": 0}, {"a": 0}]):
+                                        src = {"jobs": [{"sp": {"a": 0}, "files": {rel: [cs, ms], "only_src": ["S", 1000]}, "dirs": []}]}
+                                        dst = {"jobs": [{"sp": {"a": 0}, "files": {rel: [cd, md], "only_dst": ["D", 1000]}, "dirs": []}]}
+                                        opts = {"strategy": strat, "recursive": recursive, "check_schema": False, "doc_sync": "nosync"}
+                                        if deep:
+                                            opts["deep"] = True
+                                        if dry:
+                                            opts["dry_run"] = True
+                                        out.append({"src": src, "dst": dst, "opts": opts, "entry": entry})
+    return out
+
+
+CORE_VALUES = [0, 1, 1.0, True, "s", None, [1, 2], {"p": 0}, {"p": 1, "q": 2}, {}]
+
+
+def core_doc_cases(dries=(False,)):
+    """One key present in both documents at depth 1, 2 or 3: value pair x document strategy x entry."""
+    out = []
+    for depth in (1, 2, 3):
+        for vs in CORE_VALUES:
+            for vd in CORE_VALUES:
+                for ds in (None, ["bykey", ["pred", ["k", "a.k", "a.b.k", "k.p", "a.k.p", "a.b.k.p"]]], ["bykey", ["pred", ["b.k", "k.q"]]],
+                           ["bykey", ["regex", "a\\."]], "update", "nosync"):
+                    for dry in dries:
+                        def wrap(v, other):
+                            d = {"k": v, other: 7}
+                            for name in ("b", "a")[3 - depth:]:
+                                d = {name: d}
+                            return d
+                        entry = ["Job.sync", {"a": 0}, {"a": 0}] if (depth + len(out)) % 2 else "Project.sync"
+                        src = {"jobs": [{"sp": {"a": 0}, "files": {}, "dirs": [], "doc": wrap(vs, "s_only")}]}
+                        dst = {"jobs": [{"sp": {"a": 0}, "files": {}, "dirs": [], "doc": wrap(vd, "d_only")}]}
+                        opts = {"doc_sync": ds, "check_schema": False}
+                        if dry:
+                            opts["dry_run"] = True
+                        out.append({"src": src, "dst": dst, "opts": opts, "entry": entry})
+    return out
